@@ -1870,8 +1870,13 @@ class _CallMixin:
                     if k is not None and k > base.axis:
                         return base
                     return self._collapse(base, n)
-                return base if base.is_rows else Q(base.deg, base.num if attr in ("item", "copy", "astype", "view") else None,
-                                                   n=base.n if attr in ("copy", "astype", "view", "conj") else None)
+                if base.is_rows:
+                    return base
+                r = Q(base.deg, base.num if attr in ("item", "copy", "astype", "view") else None,
+                      n=base.n if attr in ("copy", "astype", "view", "conj") else None)
+                if attr in ("copy", "astype", "view", "conj", "conjugate"):
+                    r.shape = base.shape
+                return r
             if attr in METHODS_SHAPE:
                 return Q(base.deg) if not base.is_rows else self.unknown(n, "%s of a row-typed array" % attr)
             if attr == "dot":
